@@ -263,6 +263,19 @@ struct Runner {
             case 'I':
                 if (!insert(h, num(1), num(2), (unsigned)num(3))) out = 998;
                 break;
+            case 'Q': {
+                // assignment from an empty table: by copy (0) / by move (1)
+                Table e;
+                if (num(1) == 1) {
+                    h = Memory::Move(e);
+                } else {
+                    const Table &ce = e;
+                    h               = ce;
+                }
+                if (h.Size() != 0 || h.Capacity() != 0) out = 996;
+                clean = true;
+                break;
+            }
             case 'W': {
                 Table fresh((SizeT)num(1));   // explicit HashTable(SizeT): capacity for num(1) items, no items
                 if (fresh.Size() != 0 || (num(1) != 0 && fresh.Capacity() < num(1)) || (num(1) == 0 && fresh.Capacity() != 0)) out = 997;
